@@ -781,7 +781,8 @@ class Engine:
             if z3.is_true(p):
                 return True
         neg = z3.Not(p)
-        excl = [to_bool_term(Not(f(self))) for _, f in self.known]
+        applicable = [(kid, f) for kid, f, labels in self.known if not labels or label in labels]
+        excl = [to_bool_term(Not(f(self))) for _, f in applicable]
         # 1. a violation outside every known region?
         r = self._check(neg, *excl)
         if r == "unknown":
@@ -791,7 +792,7 @@ class Engine:
             self.violations.append(Violation(label, self._model_values(), list(self.prefix[: self.pos]), note=note))
             ok = False
         # 2. witnesses inside known regions (reported as KNOWN-FINDING)
-        for kid, f in self.known:
+        for kid, f in applicable:
             if kid in self.known_hits:
                 continue
             reg = to_bool_term(f(self))
